@@ -28,6 +28,12 @@ def run(chk, tier):
         F = load(chk, cfg)
         from props import builder as B
         B.conversion_table(chk, F, 'R12.7', cfg)
+        # R12.11 'handed to exactly one caller, also when several threads race for it': which caller a single-use value goes to is decided by
+        # its position - the result of one atomic RMW (shared with C10/C04), never a bump followed by a separate read
+        from props.c10 import position_is_rmw
+        position_is_rmw(chk, F, 'R12.11', cfg)
+        # R12.10 the converted value is what gets stored as the response (filed, never dropped on the way)
+        B.returner_error_latched(chk, F, 'R12.10', cfg)
         # ---- R12.1 bounds
         once = impl_of(F, r'^output::IntoReturnOnce$', ref_rx=r'IntoReturnOnce<output::owning::Owning<T>>')
         multi = impl_of(F, r'^output::IntoReturn$', ref_rx=r'IntoReturn<output::owning::Owning<T>>')
